@@ -1,1 +1,105 @@
-/-! # C02 — property theorems (stub: not built yet) -/
+import PymocaVerif.Lemmas.SqliteLock
+import PymocaVerif.Generated.SqlProgram
+/-!
+# C02 — concurrent parses sharing a cache folder all succeed
+
+Statements about the lock model `Model/SqliteLock.lean` for **any number of connections** and
+**any interleaving** (a schedule is an arbitrary list of connection indices; waiting statements may
+be scheduled any number of times), and about the statement tree `Generated/SqlProgram.lean` that
+the translator extracts from `parser.parse` / `_check_database_structure` on every run.
+
+Not expressible here (the runtime part of the property, see `no_deadlock`): SQLite's busy timeout
+(5 s), scheduler starvation and the OS-level race of `os.remove`; the model lets a waiting
+statement wait.  The free-running multi-process stress of `harness/props/c02.py` is the only
+witness for that part.  That every call returns the tree of the uncached parse is C01's invariant
+(`Props/C01.lean`, `inv_step` for every operation, foreign writers included) and is checked directly
+on the real code by the stress and the scheduled runs.
+-/
+namespace PymocaVerif.C02
+open PymocaVerif.SqliteLock PymocaVerif.Generated.SqlProgram
+
+/-- every connection executes some exception-free path of the program -/
+def RunsProg (prog : Prog) (pr : Nat → Path) : Prop := ∀ i, pr i ∈ paths prog
+
+/-- the statements of a `parse` call on a fresh folder (a miss), as they occur in the source -/
+def freshPath : Path :=
+  [(.read, true),
+   (.beginI, false), (.read, false), (.write, false), (.write, false), (.commit, false),
+   (.beginI, false), (.read, false), (.write, false), (.write, false), (.commit, false),
+   (.beginD, false), (.write, false), (.write, false), (.commit, false),
+   (.beginD, false), (.write, false), (.write, false), (.commit, false),
+   (.beginD, false), (.read, false), (.commit, false),
+   (.beginD, false), (.write, false), (.commit, false)]
+
+theorem freshPath_mem : freshPath ∈ paths sqlProgram := by decide +kernel
+
+/-- **No call fails with a database error**: if no path of the program writes inside a transaction that
+    has only read so far, then for every number of connections, every assignment of paths and every
+    interleaving, no statement of any connection fails. -/
+theorem no_failure (prog : Prog) (h : noUpgrade prog = true) (pr : Nat → Path) (hpr : RunsProg prog pr)
+    (sched : List Nat) (st : State) (hrun : Run pr init sched st) : ∀ i, (st i).failed = false :=
+  fun i => (run_allOk hrun (init_allOk pr fun j => pathOk_of_noUpgrade h (hpr j)) i).1
+
+example : ∃ pr sched st, RunsProg sqlProgram pr ∧ Run pr init sched st ∧ (st 0).lock = .reserved ∧ (st 1).pc = 1 :=
+  ⟨fun _ => freshPath, [0, 0, 1, 1, 1], _,
+    fun _ => freshPath_mem, runN_Run (n := 2) (init_idle 2) (by decide), by decide, by decide⟩
+
+/-- **No call deletes the database another call is using**: the file is removed only by the handler of
+    the integrity-check `try`, which runs only when a statement inside it fails; none does. -/
+theorem file_never_removed (prog : Prog) (h : noUpgrade prog = true) (pr : Nat → Path) (hpr : RunsProg prog pr)
+    (sched : List Nat) (st : State) (hrun : Run pr init sched st) : ∀ i, ¬ removesFile pr st i :=
+  fun i hrem => by
+    have := no_failure prog h pr hpr sched st hrun i
+    rw [hrem.1] at this; cases this
+
+example : ∃ p ∈ paths sqlProgram, ∃ s r, p = (s, true) :: r := ⟨freshPath, freshPath_mem, _, _, rfl⟩
+
+/-- At most one connection holds RESERVED/PENDING at any time (writers are serialised). -/
+theorem single_writer (pr : Nat → Path) (sched : List Nat) (st : State) (hrun : Run pr init sched st) :
+    OneWriter st := run_oneWriter hrun init_oneWriter
+
+example : OneWriter (runN 2 (fun _ => freshPath) init [0, 0, 1, 1, 1]) :=
+  single_writer _ _ _ (runN_Run (n := 2) (init_idle 2) (by decide))
+
+/-- **No deadlock**: in every reachable state in which some connection has not finished, some connection
+    can take a step that changes the state (so with a fair scheduler and lock hold times below the busy
+    timeout every call finishes).  The runtime half (timeouts, starvation) is outside the model. -/
+theorem no_deadlock_partial (prog : Prog) (h : noUpgrade prog = true) (pr : Nat → Path) (hpr : RunsProg prog pr)
+    (sched : List Nat) (st : State) (hrun : Run pr init sched st)
+    (hnd : ∃ i s g r, (pr i).drop (st i).pc = (s, g) :: r) :
+    ∃ j st', Step pr st j st' ∧ st' ≠ st :=
+  progress pr st (run_allOk hrun (init_allOk pr fun j => pathOk_of_noUpgrade h (hpr j))) hnd
+
+example : ∃ i s g r, ((fun _ => freshPath) i : Path).drop
+    ((runN 2 (fun _ => freshPath) init [0, 0, 1, 1, 1] i).pc) = (s, g) :: r :=
+  ⟨1, .beginI, false, freshPath.drop 2, by decide⟩
+
+/-! ### Obligations over the program extracted from the current sources -/
+
+/-- The statement tree of `parse` has no read-then-write inside a deferred transaction, no nested
+    `BEGIN`, and closes every transaction, on every path. -/
+theorem sqlProgram_noUpgrade : noUpgrade sqlProgram = true := by decide +kernel
+
+/-- Every connection is opened with `isolation_level=None` (the model's statement kinds assume that
+    Python's sqlite3 module opens no implicit transactions). -/
+theorem sqlProgram_autocommit : isolationLevelNone = true := by decide
+
+/-- `parse` itself: any number of concurrent calls, any interleaving — nobody fails, nobody removes the file. -/
+theorem parse_calls_never_fail (pr : Nat → Path) (hpr : RunsProg sqlProgram pr)
+    (sched : List Nat) (st : State) (hrun : Run pr init sched st) :
+    ∀ i, (st i).failed = false ∧ ¬ removesFile pr st i :=
+  fun i => ⟨no_failure _ sqlProgram_noUpgrade pr hpr sched st hrun i,
+            file_never_removed _ sqlProgram_noUpgrade pr hpr sched st hrun i⟩
+
+/-! ### The hypothesis is needed: the structure check with a deferred `BEGIN` (the code before the fix) -/
+
+def deferredCheck : Path := [(.beginD, false), (.read, false), (.write, false), (.commit, false)]
+
+/-- Two connections running read-then-write in a deferred transaction: the second one's write fails at once. -/
+theorem deferred_upgrade_fails :
+    ∃ sched st, Run (fun _ => deferredCheck) init sched st ∧ (st 1).failed = true :=
+  ⟨[0, 0, 1, 1, 0, 1], _, runN_Run (n := 2) (init_idle 2) (by decide), by decide⟩
+
+example : pathOk deferredCheck = false := by decide
+
+end PymocaVerif.C02
